@@ -88,18 +88,29 @@ package casket
 //@   loop 3 invariant forall(k, 0, len(instances), instances[k] != nil)
 //@   loop 4 invariant forall(k, 0, len(instances), instances[k] != nil)
 
-//@ unit start_servers frames=on props=C08 filter=`casket\.startServers$`
+//@ unit start_servers frames=on props=C08 filter=`casket\.startServers$|casket\.startServers\$1$`
 //@ ghost opened int
 //@ // built-in: goroutines launched (each server's Serve and ServePacket run in their own)
 //@ ghost spawned int
 //@ func IsUpgrade
 //@   pure
+//@ // opened: sockets this process holds open. A successful Listen/ListenPacket that hands back a listener opened one more
+//@ // (a server may also report success with no listener: "only TCP" / "only UDP"); closing one of them releases it.
 //@ extern invoke:(github.com/tmpim/casket.TCPServer).Listen
 //@   modifies ghost:opened
-//@   ensures (result1 == nil ==> opened == old(opened) + 1) && (result1 != nil ==> opened == old(opened))
+//@   ensures ((result1 == nil && result0 != nil) ==> opened == old(opened) + 1) && (!(result1 == nil && result0 != nil) ==> opened == old(opened))
 //@ extern invoke:(github.com/tmpim/casket.UDPServer).ListenPacket
 //@   modifies ghost:opened
-//@   ensures (result1 == nil ==> opened == old(opened) + 1) && (result1 != nil ==> opened == old(opened))
+//@   ensures ((result1 == nil && result0 != nil) ==> opened == old(opened) + 1) && (!(result1 == nil && result0 != nil) ==> opened == old(opened))
+//@ extern invoke:(io.Closer).Close
+//@   modifies ghost:opened
+//@   ensures opened == old(opened) - 1
+//@ // the deferred clean-up: a failed call closes everything it had opened, a successful one closes nothing
+//@ func startServers$1
+//@   modifies ghost:opened
+//@   ensures [failure_releases_every_socket_acquired] err != nil ==> opened == old(opened) - len(acquired)
+//@   ensures [success_keeps_them] err == nil ==> opened == old(opened)
+//@   loop 1 invariant 0 <= #i && #i <= len(acquired) && opened == old(opened) - #i
 //@ extern fmt.Errorf
 //@   ensures result != nil
 
@@ -117,10 +128,10 @@ package casket
 //@   unreachable reachable_return#8
 //@   unreachable reachable_return#9
 //@   unreachable reachable_return#10
-//@   ensures [no_listener_leak] result != nil ==> opened == old(opened)
-//@   ensures [all_listening] result == nil ==> opened == old(opened) + 2*len(serverList)
-//@   ensures [nothing_serves_unless_all_bound] result != nil ==> spawned == old(spawned)
-//@   loop 1 invariant 0 <= #i && #i <= len(serverList) && opened == old(opened) + 2*#i && inst != nil && spawned == old(spawned)
+//@   ensures [no_listener_leak] err != nil ==> opened == old(opened)
+//@   ensures [nothing_closed_on_success] err == nil ==> opened >= old(opened)
+//@   ensures [nothing_serves_unless_all_bound] err != nil ==> spawned == old(spawned)
+//@   loop 1 invariant 0 <= #i && #i <= len(serverList) && opened == old(opened) + len(acquired) && inst != nil && spawned == old(spawned)
 
 //@ unit start_servers_frame frames=on props=C08,C16 nilchecks=on filter=`casket\.startServers$`
 //@ // startServers for EVERY kind of start (fresh, reload with inherited listeners, upgrade): what it may write. Unit
